@@ -65,7 +65,9 @@ func verifSignedCall(w *verifWorld, ep int, alt int, svc *pool.VerifHost) error 
 	mk := func(method, identity string, args ...interface{}) string {
 		switch alt {
 		case altGarbage:
-			return "Z2FyYmFnZQ=="
+			// something that decodes but is too short, or that does not even decode (the real code
+			// answers these with different errors)
+			return []string{"Z2FyYmFnZQ==", "%%%not-a-signature%%%", "0xzz"}[verifapi.Choose("garbage", 3)]
 		case altEmpty:
 			return ""
 		case altMethod:
